@@ -50,7 +50,20 @@
  *       ASSUMES: distinct slots of one container hold distinct element objects (a container owns
  *       its elements; putting one object into a list twice is a caller error).
  *
+ *       (In the vector / map units, which define VA_SLOTS_NONNULL, the receiver check of va_comp
+ *       is replaced by the documented ASSUMES "no slot is NULL", see va_comp.)
+ *
  * Map units (pairs are real objpairs, keys/values velems): see velem_map.h.
+ *
+ * cbmc facts these units depend on (learned the hard way):
+ *   - a ghost pointer tied by == in requires may be COMPARED but not DEREFERENCED (cbmc's
+ *     value-set dereferencing only knows pointers it saw being assigned): read elements through
+ *     the slot / global that is_fresh assigned (self->items[vg_k], vg_dup_obj, vg_newpair);
+ *   - is_fresh ASSIGNS the pointer: put it before every clause that ties a ghost to that pointer;
+ *   - DFCC loop contracts: no malloc/free inside the loop (loop write sets forbid both), the
+ *     body is executed once before the havoc, a pointer assigned in the loop loses its validity;
+ *   - a callee that carries loop contracts must be used through its contract (`replace:`):
+ *     goto-instrument 6.11 can crash when it has to inline it (goto_inline_class.cpp:104).
  */
 #ifndef VERIF_ENV_ARRAY_H
 #define VERIF_ENV_ARRAY_H
@@ -66,9 +79,17 @@ spif_obj_t vg_old_k, vg_old_k2;
 spif_obj_t vg_old_x;
 /* slot index of the loop iteration in progress (annotation: vg_cur = i at body top) */
 size_t vg_cur;
+/* map units (velem_map.h phase 2; declared here because the shared annotation table names them) */
+struct spif_objpair_t_struct vm_scratch;
+size_t vg_app_cnt;
+spif_obj_t vg_app_k;
+spif_objpair_t vg_dup_pair;          /* fresh pair (with fresh key / value blocks) that the dup of the ghost pair returns */
 /* pair model */
 spif_obj_t vg_ca, vg_cb, vg_ca2, vg_cb2;
 spif_cmp_t vg_cr, vg_cr2;
+/* the element most recently used as receiver of a comparison (binary searches hand back the slot
+ * they compared last; recorded only in units that define VA_RECORD_LAST) */
+spif_obj_t vg_last_a;
 /* key model */
 spif_obj_t vg_e1, vg_e2, vg_e3, vg_e4;
 int vg_key1, vg_key2, vg_key3, vg_key4;
@@ -91,7 +112,18 @@ static int va_key(spif_obj_t p)
 }
 static spif_cmp_t va_comp(spif_obj_t a, spif_obj_t b)
 {
+#ifdef VA_SLOTS_NONNULL
+    /* ASSUMES (vector and map units): no slot of a vector / map is NULL.  This half of VEC_INV /
+     * MAP_INV is a quantified fact that cannot be written as a precondition; it is instantiated
+     * here, where a slot is used as receiver.  Its preservation is proved for the ghost slot by
+     * the insert / set / remove units. */
+    __CPROVER_assume(a != NULL);
+#else
     __CPROVER_assert(a != NULL, "SPIF_OBJ_COMP: receiver is not NULL (dispatch dereferences it)");
+#endif
+#ifdef VA_RECORD_LAST
+    vg_last_a = a;
+#endif
     if (b == NULL) return SPIF_CMP_GREATER;
     if (a == b) return SPIF_CMP_EQUAL;             /* one object, one key */
     int ka = va_key(a), kb = va_key(b);
